@@ -76,6 +76,12 @@ def run(ctx):
             found = []
             res.setdefault('coverage', {})['pattern_search_error'] = repr(e)
         res['violations'] = list(res.get('violations', [])) + found[:6]
+    od = getattr(ctx, 'order_diff', None)
+    if od and od.get('table') == 'simple_types':
+        res['violations'] = list(res.get('violations', [])) + [{'replay': {
+            'property': 'C05', 'kind': 'property-violated-on-real-code',
+            'what_fails': 'the definition of simple type %s (enumeration / pattern / facets as the library uses them) depends on which type was used first in the process' % od['type'],
+            'order_dependence': od}}]
     return res
 
 
